@@ -44,12 +44,24 @@ def run_(ctx, model):
     rng = gen.rng_for(ctx.seed, 'c17')
     n_files = ctx.n(10, 120)
     kinds = ('default', 'zslice', 'general', '2d', 'irregular', 'default', 'b0is4')
-    for fnum, fi in enumerate(files.read_files(ctx, rng, n_files, kinds=kinds, max_voxels=6_000)):
+    def long_fanouts():
+        # calls that issue more range reads than the remote backend has workers (20): a crossline of a 96-inline cube is
+        # 24 reads, a z-slice 48, on the default layout; the fault positions below include the very first reads
+        from .. import synth
+        yield synth.make(ctx.path('fan.sgz'), (96, 8, 8), (4, 4, 512), 16, rng)
+        if not ctx.quick or ctx.seed % 2 == 0:
+            yield synth.make(ctx.path('fan2.sgz'), (9, 100, 8), (4, 4, 256), 32, rng)
+        # more range reads in one call than one batch of a batched fan-out would hold (33 x 33 = 1089 trace columns)
+        yield synth.make(ctx.path('fan3.sgz'), (132, 130, 4), (4, 4, 256), 32, rng)
+    import itertools
+    for fnum, fi in enumerate(itertools.chain(long_fanouts(), files.read_files(ctx, rng, n_files, kinds=kinds, max_voxels=6_000))):
         desc = {'n': fi.n, 'bs': fi.lay.bs, 'q': fi.lay.q, 'is2d': fi.is2d, 'irregular': fi.mask is not None}
         ops = readcheck.in_range_ops(rng, fi, 1)
         ops = [o for o in ops if o[0] not in ('ilno', 'xlno', 'zsc', 'trc')]
         if fi.arrays:
             ops += [('hdr', int(rng.integers(fi.tracecount))), ('tfv', sorted(fi.arrays)[0])]
+        if fi.n[0] * fi.n[1] > 10_000:
+            ops = [('zs', int(rng.integers(fi.n[2]))), ('xl', int(rng.integers(fi.n[1])))]
         for blob in (False, True):
             delay = None
             if blob:
